@@ -16,7 +16,7 @@ CLASS_LAYER = [PA + 'Pauli.__matmul__#Pauli', PA + 'Pauli.__neg__', PA + 'Pauli.
                PA + 'PauliList.rotate_by#nomask', PA + 'PauliList.transform_by#nomask', PA + 'PauliList.rotate_by#mask', PA + 'PauliList.transform_by#mask', ST + 'CliffordMap.copy', ST + 'CliffordMap.compose',
                ST + 'CliffordMap.to_state#r', ST + 'CliffordMap.to_state#none', ST + 'StabilizerState.copy', ST + 'StabilizerState.to_map',
                ST + 'StabilizerState.expect#list', ST + 'identity_map', ST + 'StabilizerState.measure#list', ST + 'StabilizerState.measure#state', ST + 'StabilizerState.postselect',
-               ST + 'StabilizerState.expect#state', ST + 'CliffordMap.inverse', ST + 'clifford_rotation_map', ST + 'zero_state', ST + 'one_state', ST + 'maximally_mixed_state', ST + 'StabilizerState.entropy#mask', ST + 'StabilizerState.entropy#qubits', ST + 'StabilizerState.get_prob', ST + 'CliffordMap.embed', PA + 'PauliPolynomial.__neg__', PA + 'PauliPolynomial.__rmul__', PA + 'PauliPolynomial.copy', ST + 'random_pauli_map', 'pyclifford/circuit.py::clifford_rotation_gate#noqubits', 'pyclifford/circuit.py::CliffordGate.compile#generator', 'pyclifford/circuit.py::CliffordGate.independent_from', 'pyclifford/circuit.py::CliffordLayer.independent_from', 'pyclifford/circuit.py::MeasureLayer.obs_gs_ps', PA + 'PauliList.__getitem__#int', PA + 'Pauli.rotate_by#nomask', PA + 'Pauli.transform_by#nomask', 'pyclifford/circuit.py::MeasureLayer.forward', PA + 'PauliList.__neg__', PA + 'PauliList.rotate_by#state', PA + 'PauliList.transform_by#state', PA + 'PauliPolynomial.__matmul__#poly', PA + 'Pauli.__matmul__#Monomial',
+               ST + 'StabilizerState.expect#state', ST + 'CliffordMap.inverse', ST + 'clifford_rotation_map', ST + 'zero_state', ST + 'one_state', ST + 'maximally_mixed_state', ST + 'StabilizerState.entropy#mask', ST + 'StabilizerState.entropy#qubits', ST + 'StabilizerState.get_prob', ST + 'CliffordMap.embed', PA + 'PauliMonomial.__neg__', PA + 'PauliMonomial.__rmul__', PA + 'PauliMonomial.copy', PA + 'PauliMonomial.as_polynomial', PA + 'PauliPolynomial.__neg__', PA + 'PauliPolynomial.__rmul__', PA + 'PauliPolynomial.copy', ST + 'random_pauli_map', 'pyclifford/circuit.py::clifford_rotation_gate#noqubits', 'pyclifford/circuit.py::CliffordGate.compile#generator', 'pyclifford/circuit.py::CliffordGate.independent_from', 'pyclifford/circuit.py::CliffordLayer.independent_from', 'pyclifford/circuit.py::MeasureLayer.obs_gs_ps', PA + 'PauliList.__getitem__#int', PA + 'Pauli.rotate_by#nomask', PA + 'Pauli.transform_by#nomask', 'pyclifford/circuit.py::MeasureLayer.forward', PA + 'PauliList.__neg__', PA + 'PauliList.rotate_by#state', PA + 'PauliList.transform_by#state', PA + 'PauliPolynomial.__matmul__#poly', PA + 'Pauli.__matmul__#Monomial',
                'pyclifford/circuit.py::CliffordGate.forward#generator_global', 'pyclifford/circuit.py::CliffordGate.backward#generator_global',
                'pyclifford/circuit.py::CliffordGate.forward#map_global'] + GATES[3:] + LOCAL_GATES + LOCAL_STATE + \
               [PA + '%s.__rmul__#%s' % (c, t) for c in ('Pauli', 'PauliList') for t in ('1', 'i', 'm1', 'mi')]
@@ -177,7 +177,8 @@ def C14(run):
 
 def C15(run):
     run.deductive(keys=[U + 'batch_dot', U + 'ipow', PA + 'PauliPolynomial.__matmul__#poly', PA + 'Pauli.__matmul__#Monomial',
-                        PA + 'PauliPolynomial.__neg__', PA + 'PauliPolynomial.__rmul__', PA + 'PauliPolynomial.copy'], lemmas=['mul_assoc'])
+                        PA + 'PauliPolynomial.__neg__', PA + 'PauliPolynomial.__rmul__', PA + 'PauliPolynomial.copy',
+                        PA + 'PauliMonomial.__neg__', PA + 'PauliMonomial.__rmul__', PA + 'PauliMonomial.copy', PA + 'PauliMonomial.as_polynomial'], lemmas=['mul_assoc'])
     run.bounded_check('c15_algebra', _b().c15_algebra, Nmax=q(run, 2, 3), trees=q(run, 200, 8000))
     return 'other', ('deductive (all N, all term counts; complex numbers abstract with cmul / cneg): the product of two polynomials is the list of all '
                      'pairwise term products (string sum, exact phase, product of coefficients), Pauli @ monomial keeps the coefficient, negation / '
